@@ -10,7 +10,7 @@ CHAIN = ["src"] + STAGES
 FRONT_END = "front end (CST->AST lowering, derive, name resolution, typer elaboration, match compilation)"
 
 def run_sem(ctx, lines, cap=0, sub="sem", env=None):
-    p = subprocess.run(["bash", "-c", f"ulimit -s unlimited; exec {vlib.MODEL} {sub}"], input="\n".join(lines) + "\n",
+    p = vlib.srun(["bash", "-c", f"ulimit -s unlimited; exec {vlib.MODEL} {sub}"], input="\n".join(lines) + "\n",
                        stdout=subprocess.PIPE, stderr=subprocess.PIPE, text=True, timeout=3000,
                        env=dict(os.environ, GV_CAP=str(cap), **(env or {})))
     res = {}
@@ -23,7 +23,7 @@ def run_sem(ctx, lines, cap=0, sub="sem", env=None):
     return res
 
 def gocheck(ctx, lines):
-    p = subprocess.run(["bash", "-c", f"ulimit -s unlimited; exec {vlib.MODEL} gocheck"], input="\n".join(lines) + "\n",
+    p = vlib.srun(["bash", "-c", f"ulimit -s unlimited; exec {vlib.MODEL} gocheck"], input="\n".join(lines) + "\n",
                        stdout=subprocess.PIPE, stderr=subprocess.PIPE, text=True, timeout=3000)
     res = {}
     for l in p.stdout.split("\n"):
